@@ -56,7 +56,7 @@ func ensureOverlay() string {
 
 // build compiles the worker test binary from /repo's current working tree.
 func build(tag string, race bool) (string, string) {
-	ov := ensureOverlay()
+	ov := instrumentedOverlay(tag + os.Getenv("VERIF_TAG") + map[bool]string{true: ".race", false: ""}[race])
 	// VERIF_TAG keeps concurrent invocations for one property from sharing a binary name
 	tag += os.Getenv("VERIF_TAG")
 	name := "drivers." + tag + ".test"
